@@ -41,6 +41,7 @@ import (
 
 	"github.com/AliceO2Group/Control/common/event/topic"
 	pb "github.com/AliceO2Group/Control/common/protos"
+	"github.com/AliceO2Group/Control/core/environment"
 	"github.com/AliceO2Group/Control/core/the"
 
 	"verif/harness/envlab"
@@ -61,6 +62,9 @@ type Step struct {
 	Src      string   `json:"src"`
 	Expect   string   `json:"expect"` // state predicted by the documented semantics
 	Note     string   `json:"note,omitempty"`
+	// Race: a forced teardown is requested from a second goroutine while the body of this transition is
+	// executing; it waits on the transition mutex and runs as soon as the transition is over.
+	Race bool `json:"race,omitempty"`
 }
 
 type C10Case struct {
@@ -228,9 +232,40 @@ func genC10(c *vlib.Ctx, idx int64) C10Case {
 		}
 	}
 	if state != "DONE" {
-		cs.Steps = append(cs.Steps, teardownStep(r, state, true))
+		if (state == "CONFIGURED" || state == "RUNNING") && r.Intn(100) < 45 {
+			cs.Steps = append(cs.Steps, raceStepGen(r, state))
+		} else {
+			cs.Steps = append(cs.Steps, teardownStep(r, state, true))
+		}
 	}
 	return cs
+}
+
+// raceStepGen: START_ACTIVITY (from CONFIGURED) or STOP_ACTIVITY / GO_ERROR (from RUNNING) with a forced
+// teardown requested while the transition body runs. The transition may also fail (body, enter_, after_:
+// the points that are still reached once the body has been entered).
+func raceStepGen(r *rand.Rand, src string) Step {
+	op := "START_ACTIVITY"
+	if src == "RUNNING" {
+		op = "STOP_ACTIVITY"
+		if r.Intn(100) < 20 {
+			op = "GO_ERROR"
+		}
+	}
+	dst := refDst(op, src)
+	s := Step{Op: op, Src: src, Race: true, Expect: "DONE", Note: "race"}
+	ms := momentsOfStep(op, src, dst)
+	switch p := r.Intn(100); {
+	case p < 15:
+		s.FailBody = true
+	case p < 35:
+		k := []string{"enter", "after"}[r.Intn(2)]
+		s.Fail = append(s.Fail, envlab.Expr(ms[k], probeWeights[r.Intn(3)]))
+	}
+	if r.Intn(100) < 40 {
+		s.Slow = append(s.Slow, envlab.Expr(ms[hookMomentKinds[r.Intn(4)]], probeWeights[r.Intn(3)]))
+	}
+	return s
 }
 
 func c10Fingerprint(cs C10Case) string {
@@ -341,7 +376,14 @@ func execC10(w *envlab.World, cs C10Case) (*c10Outcome, error) {
 		sc.set(st)
 		var res stepResult
 		var derr error
-		if st.Op == "TEARDOWN" {
+		if st.Race {
+			var an string
+			res.State, derr, an = raceTeardown(lab, st)
+			if an != "" {
+				out.Anomalies++
+				lab.Add(envlab.Record{Kind: envlab.KAnomaly, Msg: an})
+			}
+		} else if st.Op == "TEARDOWN" {
 			res.State, derr = seqTeardown(lab, st.Force)
 		} else if st.Op == "FORCE_ERROR" {
 			src := lab.Env.CurrentState()
@@ -361,7 +403,7 @@ func execC10(w *envlab.World, cs C10Case) (*c10Outcome, error) {
 		}
 		if derr == errWatchdog {
 			out.Anomalies++
-			out.Records = lab.Records()
+			out.Records = normalizeC10(lab.Records())
 			return out, nil
 		}
 		sc.set(nil)
@@ -381,9 +423,132 @@ func execC10(w *envlab.World, cs C10Case) (*c10Outcome, error) {
 		}
 		quiescent("TEARDOWN", st, "")
 	}
-	out.Records = lab.Records()
+	out.Records = normalizeC10(lab.Records())
 	out.Anomalies += lab.Anomalies()
 	return out, nil
+}
+
+const (
+	kRaceBegin envlab.Kind = "race_begin"
+	kRaceEnd   envlab.Kind = "race_end"
+	kRaceNote  envlab.Kind = "race_note"
+)
+
+// raceTeardown drives one Race step: the transition runs on its own goroutine with a body that waits
+// at a gate; Manager.TeardownEnvironment(force) is called from a second goroutine; when that one has
+// logged "attempt delayed" (it is parked on the transition mutex) the gate opens. The trans_end /
+// teardown_begin / teardown_end records of the two overlapping calls are written afterwards by
+// normalizeC10, at the positions that the mutex defines.
+func raceTeardown(lab *envlab.Lab, st *Step) (state string, err error, anomaly string) {
+	setupDelayHook()
+	delayed := make(chan struct{}, 4)
+	delaySubs.Store(lab.ID, delayed)
+	defer delaySubs.Delete(lab.ID)
+	src := lab.Env.CurrentState()
+	lab.Add(envlab.Record{Kind: kRaceBegin, Event: st.Op, Src: src, State: src})
+	entered := make(chan struct{})
+	gate := make(chan struct{})
+	transDone := make(chan error, 1)
+	tdDone := make(chan error, 1)
+	tr := environment.VerifNewTransition(st.Op, func(*environment.Environment) error {
+		lab.Add(envlab.Record{Kind: envlab.KBodyEnter, Event: st.Op})
+		close(entered)
+		<-gate
+		var berr error
+		if st.FailBody {
+			berr = errors.New("verif: tasks failed to transition (scripted)")
+		}
+		r := envlab.Record{Kind: envlab.KBodyExit, Event: st.Op}
+		if berr != nil {
+			r.Err = berr.Error()
+		}
+		lab.Add(r)
+		return berr
+	})
+	go func() { transDone <- lab.Env.TryTransition(tr) }()
+	var terr error
+	transReturned := false
+	select {
+	case <-entered:
+	case terr = <-transDone: // cancelled before its body: nothing to race with
+		transReturned = true
+	case <-time.After(watchdog):
+		close(gate)
+		return lab.Env.CurrentState(), errWatchdog, ""
+	}
+	lab.Add(envlab.Record{Kind: kRaceNote, Msg: "teardown requested", State: lab.Env.CurrentState()})
+	go func() { tdDone <- lab.W.Mgr.TeardownEnvironment(lab.Env.Id(), true) }()
+	var tdErr error
+	tdReturned := false
+	if !transReturned {
+		select {
+		case <-delayed:
+			lab.Add(envlab.Record{Kind: kRaceNote, Msg: "teardown waits for the transition mutex"})
+		case tdErr = <-tdDone:
+			tdReturned = true
+			lab.Add(envlab.Record{Kind: kRaceNote, Msg: "teardown returned while the transition body was executing"})
+		case <-time.After(30 * time.Second):
+			anomaly = "race step: the teardown neither waited for the mutex nor returned within 30 s"
+		}
+		close(gate)
+	}
+	if !transReturned {
+		select {
+		case terr = <-transDone:
+		case <-time.After(watchdog):
+			return lab.Env.CurrentState(), errWatchdog, anomaly
+		}
+	}
+	if !tdReturned {
+		select {
+		case tdErr = <-tdDone:
+		case <-time.After(watchdog):
+			return lab.Env.CurrentState(), errWatchdog, anomaly
+		}
+	}
+	state = lab.Env.CurrentState()
+	r := envlab.Record{Kind: kRaceEnd, Event: st.Op, Src: src, State: state}
+	if tdErr != nil {
+		r.Err = tdErr.Error()
+	}
+	if terr != nil {
+		r.Msg = terr.Error()
+	}
+	lab.Add(r)
+	return state, tdErr, anomaly
+}
+
+// normalizeC10 turns the records of a Race step into the sequential shape the oracle reads: the
+// transition ends at its last published event ("transition completed successfully" / "transition
+// error", written under the transition mutex, with the state it left), the teardown begins right
+// there and ends at race_end.
+func normalizeC10(recs []envlab.Record) []envlab.Record {
+	out := make([]envlab.Record, 0, len(recs)+8)
+	op, src := "", ""
+	inRace, final := false, false
+	for _, r := range recs {
+		switch {
+		case r.Kind == kRaceBegin:
+			op, src, inRace, final = r.Event, r.Src, true, false
+			out = append(out, envlab.Record{Seq: r.Seq, Kind: envlab.KTransBegin, Event: op, Src: src, State: src, Msg: "race"})
+		case inRace && !final && r.Kind == envlab.KEnvEvent && r.Event == op && r.Step == "" &&
+			(r.Msg == "transition completed successfully" || r.Msg == "transition error" || r.Msg == "transition impossible"):
+			final = true
+			out = append(out, r,
+				envlab.Record{Seq: r.Seq, Kind: envlab.KTransEnd, Event: op, Src: src, State: r.State, Err: r.Err, Msg: "race"},
+				envlab.Record{Seq: r.Seq, Kind: envlab.KTeardownBegin, Event: "DESTROY", Src: r.State, State: r.State, Msg: "race"})
+		case r.Kind == kRaceEnd:
+			if !final {
+				out = append(out, envlab.Record{Seq: r.Seq, Kind: envlab.KTransEnd, Event: op, Src: src, State: src, Err: r.Msg, Msg: "race: no final event"},
+					envlab.Record{Seq: r.Seq, Kind: envlab.KTeardownBegin, Event: "DESTROY", Src: src, State: src, Msg: "race"})
+			}
+			out = append(out, envlab.Record{Seq: r.Seq, Kind: envlab.KTeardownEnd, Event: "DESTROY", State: r.State, Err: r.Err, Msg: "race"})
+			inRace = false
+		default:
+			out = append(out, r)
+		}
+	}
+	return out
 }
 
 // ---------------------------------------------------------------- oracle
@@ -442,6 +607,13 @@ func checkC10(recs []envlab.Record) ([]viol, map[string]int64) {
 		case kRunEvent:
 			o.cnt["run_events"]++
 			o.runEvent(r)
+		case kRaceNote:
+			switch r.Msg {
+			case "teardown waits for the transition mutex":
+				o.cnt["race_teardown_waited_for_mutex"]++
+			case "teardown returned while the transition body was executing":
+				o.cnt["race_teardown_did_not_wait"]++
+			}
 		case envlab.KTransEnd, envlab.KTeardownEnd:
 			o.endOcc(r)
 		}
@@ -738,6 +910,11 @@ func countC10Case(c *vlib.Ctx, cs C10Case, out *c10Outcome) {
 			}
 			if s.FailBody {
 				c.Count("failed_"+key+"_at_body", 1)
+			}
+		case "race":
+			c.Count("race_teardown_during_"+key, 1)
+			if out.Results[i].State == "DONE" {
+				c.Count("race_teardown_completed", 1)
 			}
 		case "illegal":
 			c.Count("illegal_requests", 1)
